@@ -150,7 +150,8 @@ def allocOf (sizeT len : Nat) : Nat := 64 / sizeT * (len / (64 / sizeT) + 1)
 /-- one operation on the specification's heap: each buffer is just the list of its `len` elements -/
 def specStep (sizeT : Nat) (h : List (List (List Nat))) : AOp → List (List (List Nat)) × AOut
   | .zeroed len =>
-    if sizeT ≠ 0 ∧ 64 % sizeT = 0 then (h ++ [List.replicate len (List.replicate sizeT 0)], .info len (allocOf sizeT len))
+    if sizeT ≠ 0 ∧ 64 % sizeT = 0 ∧ fits sizeT len then
+      (h ++ [List.replicate len (List.replicate sizeT 0)], .info len (allocOf sizeT len))
     else (h, .fault Fault.panic)
   | .write k i v =>
     match h[k]? with
